@@ -4,7 +4,7 @@ parser.y): TLC checks Parse(Render(t)).out = RPN(t) for every tree of the univer
 rendered to text and parsed by the real lexer+parser: (i) the callback sequence must equal RPN(t), (ii) the tree built
 by ExpressionBuilder must equal t, (iii) also embedded in guards, updates, invariants, initialisers, statements and
 queries; literal boundary values are checked against LitOK."""
-import json, os, struct
+import json, os, re, struct
 import vf, lrconf
 from xmlgen import render_xml
 
@@ -248,6 +248,24 @@ def run(tier):
                     rt["text"], x["qq"]["form"], json.dumps(rt.get("first") or rt.get("what"))[:200]), {"kind": "query", "text": rt["text"], "form": x["qq"]})
             continue
         n_q += 1
+        # no literal is silently dropped: every number written in the query is a constant of the tree handed to clients (a qualitative `<= p` is handed over as `>= 1 - p`)
+        ints, dbls = set(), set()
+
+        def consts(n):
+            if isinstance(n, dict):
+                if n.get("k") == "CONSTANT":
+                    if "v" in n: ints.add(n["v"])
+                    if "d" in n: dbls.add(n["d"])
+                for ch in n.get("c") or []:
+                    consts(ch)
+        consts(tr)
+        for lit in re.findall(r"(?<![\w.])\d+(?:\.\d+)?(?![\w.])", re.sub(r'"[^"]*"|\(\s*\w+\s*:\s*int\[[^\]]*\]\s*\)', "", rt["text"])):       # not strings, not the type of a binder
+            ok = (int(lit) in ints) if lit.isdigit() else any(dbits(v) in dbls for v in (float(lit), 1 - float(lit)))
+            if lit.isdigit() and not ok:
+                ok = dbits(float(lit)) in dbls
+            if not ok:
+                c.finding("c02:query-literal-dropped:%s" % x["qq"]["form"], "the number %s written in the query `%s` is in no constant of the tree handed to clients (%s)" % (lit, rt["text"], tr.get("k")),
+                          {"kind": "query", "text": rt["text"], "form": x["qq"], "tree": tr})
         kids = [k.get("k") if isinstance(k, dict) else None for k in (tr.get("c") or [])]
         if tr.get("k") != x["root"] or (x["child"] and (not kids or kids[0] != x["child"])):
             c.finding("c02:query-kind:%s" % x["qq"]["form"], "the query `%s` is handed to clients as a %s tree (first operand %s); its form prescribes %s%s" % (
